@@ -338,3 +338,6 @@ CHECKS['C17']['text'] += (
     "(who queues where, class served in, blocked flag), for every configuration, every state satisfying the invariant TInv (Blocking.Who + an unblocked queued customer has previous_class = customer_class) and every oracle; never_negative; "
     "sub_dup_refuted / grp_dup_refuted: a node listed twice in observed_nodes / in two groups breaks it (a user-parameter issue). MatrixBlocking is not covered. K3: the ghost call lists of the model (TrackerInc.calls_event_step, dispatch 41) are compared, event by event, "
     "with the calls the real engine makes to its tracker (logged by a behaviour-free subclass), and tinvc_b is evaluated on the same real snapshots.")
+CHECKS['C02']['text'] += (
+    " Clock2r.v (partial, named so): the same clock invariant with the resume option of pre-emptive capacitated slots, in the scope without queue capacities (nobody is ever blocked, every stored time_left >= 0): event_step_clk2r_partial / run_many_clk2r_partial; "
+    "resume for priority pre-emption and pre-emptive Schedules is NOT covered (it needs the server <-> customer link inside the event).")
